@@ -251,7 +251,27 @@ func (r *nodeBasedBalancer) swapShard(
 	r.Info("propose to swap the shard", slog.Int64("shard", candidateShard.ShardID), slog.Any("from", fromNode), slog.Any("to", targetNodeID))
 	loadRatios.MoveShardToNode(candidateShard, fromNodeID, targetNodeID)
 	loadRatios.ReCalculateRatios()
+	r.applySwapToSnapshot(loadRatios, candidateShard, fromNodeID, *targetNode)
 	return true, nil
+}
+
+// applySwapToSnapshot makes the proposed swap visible to the rest of the round: every node holds its own
+// copy of the shard info, and a later swap of the same shard must not pick a server that was just added.
+func (*nodeBasedBalancer) applySwapToSnapshot(loadRatios *model.Ratio, swapped *model.ShardLoadRatio, fromNodeID string, target model.Server) {
+	newEnsemble := make([]model.Server, 0, len(swapped.Ensemble))
+	for _, member := range swapped.Ensemble {
+		if member.GetIdentifier() != fromNodeID {
+			newEnsemble = append(newEnsemble, member)
+		}
+	}
+	newEnsemble = append(newEnsemble, target)
+	for nodeIter := loadRatios.NodeIterator(); nodeIter.Next(); {
+		for shardIter := nodeIter.Value().ShardIterator(); shardIter.Next(); {
+			if shard := shardIter.Value(); shard.Namespace == swapped.Namespace && shard.ShardID == swapped.ShardID {
+				shard.Ensemble = newEnsemble
+			}
+		}
+	}
 }
 
 func (r *nodeBasedBalancer) checkQuarantineNodes() {
